@@ -425,12 +425,37 @@ pub fn random_sat_op<R: RngCore>(b: &mut Builder, rng: &mut R, cfg: &GenCfg, roo
                 1 => BlsScalar::from(2 + rng.next_u64() % 5),
                 _ => rand_scalar(rng),
             };
+            let z = BlsScalar::zero();
+            // the row's identity is q_arith * (arithmetic part) + PI = 0: the
+            // public input is NOT scaled by q_arith. Half of these rows carry
+            // one; with q_arith = 0 the only satisfying public input is 0.
+            let qa = if cfg.public && rng.next_u32() % 5 == 0 { z } else { qa };
+            let (pi, piv) = if !cfg.public || rng.next_u32() % 2 == 0 {
+                (Pi::None, z)
+            } else if qa == z {
+                if rng.next_u32() % 2 == 0 {
+                    (Pi::Const(z), z)
+                } else {
+                    (Pi::Input(b.scalar_input(z)), z)
+                }
+            } else {
+                let v = match rng.next_u32() % 3 {
+                    0 => BlsScalar::from(1 + rng.next_u64() % 9),
+                    _ => rand_scalar(rng),
+                };
+                if rng.next_u32() % 2 == 0 {
+                    (Pi::Const(v), v)
+                } else {
+                    (Pi::Input(b.scalar_input(v)), v)
+                }
+            };
             let mut s6: Sel6 = [sel_pool(rng), sel_pool(rng), sel_pool(rng), sel_pool(rng), sel_pool(rng), BlsScalar::zero()];
             let w = [pick_reg(b, rng), pick_reg(b, rng), pick_reg(b, rng), pick_reg(b, rng)];
-            solve_qc(&mut s6, b.val(w[0]), b.val(w[1]), b.val(w[2]), b.val(w[3]), BlsScalar::zero());
-            let z = BlsScalar::zero();
+            // arithmetic part = -PI / q_arith
+            let scaled = if qa == z { z } else { piv * qa.invert().unwrap() };
+            solve_qc(&mut s6, b.val(w[0]), b.val(w[1]), b.val(w[2]), b.val(w[3]), scaled);
             let s = [s6[0], s6[1], s6[2], s6[3], s6[4], s6[5], qa, z, z, z, z];
-            b.push(Op::Raw { s, pi: Pi::None, w }).unwrap();
+            b.push(Op::Raw { s, pi, w }).unwrap();
         }
         _ => return false,
     }
@@ -507,6 +532,19 @@ pub fn random_program_from<R: RngCore>(mut b: Builder, rng: &mut R, cfg: &GenCfg
         if cfg.public {
             let i = b.scalar_input(rand_scalar(rng));
             b.push(Op::Public(i)).unwrap();
+        }
+        if cfg.public && cfg.raw {
+            // public inputs on rows whose q_arith is 0 / neither 0 nor 1: the
+            // row identity is q_arith * (arithmetic part) + PI = 0
+            let z = BlsScalar::zero();
+            let i = b.scalar_input(z);
+            b.push(Op::Raw { s: [sel_pool(rng), sel_pool(rng), z, z, z, rand_scalar(rng), z, z, z, z, z], pi: Pi::Input(i), w: [1, 1, 0, 0] }).unwrap();
+            let qa = BlsScalar::from(2 + rng.next_u64() % 7);
+            let v = BlsScalar::from(1 + rng.next_u64() % 100);
+            let j = b.scalar_input(v);
+            // q_l * ONE + q_c = -v / qa with q_l = 1
+            let qc = -(v * qa.invert().unwrap()) - BlsScalar::one();
+            b.push(Op::Raw { s: [z, BlsScalar::one(), z, z, z, qc, qa, z, z, z, z], pi: Pi::Input(j), w: [1, 0, 0, 0] }).unwrap();
         }
     }
     // a program that is allowed the heavy components and has the room always
